@@ -170,6 +170,26 @@ def _gen_shape(repo):
         any(_norm(h) == 'except Exception: self._cache.pop(result._job, None) if waitforslot and self._putlock is not None: self._putlock.release() raise'
             for n in ast.walk(g) if isinstance(n, ast.Try) for h in n.handlers)
 
+    # ---- Worker.after_fork: the user's initializer runs BEFORE the worker's own signal set-up
+    # (termination handlers, the soft-timeout handler), so nothing it does to signal dispositions
+    # survives; the soft-timeout handler is installed unconditionally when the signal exists
+    g = find_func(tree, 'Worker.after_fork')
+    order = [_norm(st) for st in g.body]
+    def _idx(prefix):
+        return next((i for i, t in enumerate(order) if t.startswith(prefix)), None)
+    i_init = _idx('if self.initializer is not None: self.initializer(*self.initargs)')
+    i_reset = _idx('reset_signals(full=self.sigprotection)')
+    i_soft = _idx('if SIG_SOFT_TIMEOUT is not None: signal.signal(SIG_SOFT_TIMEOUT, soft_timeout_sighandler)')
+    facts['initializer_runs_before_signal_setup'] = None not in (i_init, i_reset, i_soft) and i_init < i_reset and i_init < i_soft
+    facts['soft_handler_installed_in_every_worker'] = i_soft is not None
+    # ---- Worker.workloop: once the termination handler has run, ANY exception of the task is re-raised
+    g = find_func(tree, 'Worker.workloop')
+    facts['interrupted_task_always_reraised'] = any(
+        isinstance(n, ast.ExceptHandler) and n.type is not None and _norm(n.type) == 'BaseException'
+        and len(n.body) >= 1 and isinstance(n.body[0], ast.If) and _norm(n.body[0].test) == '_should_have_exited[0]'
+        and any(isinstance(x, ast.Raise) and x.exc is None for x in n.body[0].body)
+        for n in ast.walk(g))
+
     out = ['(* GENERATED by translate/kernels/poolshape.py from billiard/pool.py -- do not edit *)']
     for k in sorted(facts):
         out.append('Definition %s : bool := %s.' % (k, 'true' if facts[k] else 'false'))
